@@ -78,22 +78,30 @@ def h_modify_symbol(eng):
     eng.call(VBound(add, root), [here], {})
     eng.call(VBound(add, root), [pk], {})
     eng.call(VBound(add, pk), [twin], {})
+    # the class being flattened may be a COPY of the class the argument's scope points at (a local class is instantiated once for the
+    # enclosing class and copied again for every component of its type): same place in the hierarchy, another object
+    here_copy = A.new("InstanceClass", name="M", type="model")
+    here_copy.fields["parent"] = root
     n = 1 + eng.choice(3)
     attrs, scopes, vals, args = [], [], [], []
     for i in range(n):
         attrs.append(["start", "value", "min"][eng.choice(3)])
-        scopes.append([None, here, twin][eng.choice(3)])
+        scopes.append([None, here, twin, here_copy][eng.choice(4)])
         vals.append(A.prim(100 + i))
         args.append(elem_arg(A, attrs[-1], vals[-1], scopes[-1]))
     sym = A.new("Symbol", name="x", type=A.ref("Real"))
     decl = {k: sym.fields[k] for k in ("start", "value", "min")}
     sym.fields["class_modification"] = A.new("ClassModification", arguments=VList(list(args)))
-    eng.input("arguments", [(a, "None" if s is None else ("this class" if s is here else "other class of the same simple name")) for a, s in zip(attrs, scopes)])
+    eng.input("arguments", [(a, "None" if s is None else ("this class" if s is here else ("another object for this class (a copy)" if s is here_copy else "other class of the same simple name")))
+                            for a, s in zip(attrs, scopes)])
     eng.call(f, [sym, here], {})
     eng.cover("modify.n%d" % n)
     if twin in scopes:
         eng.cover("modify.other_scope_same_simple_name")
-    applicable = [i for i in range(n) if scopes[i] is None or scopes[i] is here]
+    if here_copy in scopes:
+        eng.cover("modify.scope_is_a_copy_of_this_class")
+    # (P) a modification belongs to the class where it was WRITTEN (its place in the hierarchy), whichever object represents that class
+    applicable = [i for i in range(n) if scopes[i] is None or scopes[i] is here or scopes[i] is here_copy]
     # (P) the LAST applicable argument of an attribute determines it (list order = innermost .. outermost)
     for a in ("start", "value", "min"):
         idx = [i for i in applicable if attrs[i] == a]
@@ -322,15 +330,62 @@ def h_apply_before_rename(eng):
     eng.prove("order.renaming_uses_this_levels_prefix", z3.BoolVal(all(t[2] == ("b.a." if nested else "") for t in trace if t[0] == "rename")))
 
 
+# ------------------------------------------------------------------------------------------------ build_instance_tree: local classes
+def classes_loop_selector(fn):
+    import ast as _ast
+    for st in fn.body:
+        if isinstance(st, _ast.For) and isinstance(st.target, _ast.Tuple) and [getattr(e, "id", None) for e in st.target.elts] == ["class_name", "c"]:
+            return [st]
+    raise KeyError("classes loop")
+
+
+def h_local_classes_are_instantiated_from_copies(eng):
+    """build_instance_tree MODIFIES the symbols of the class it instantiates (their type becomes an instance class, their pending
+    modifications get a scope and move into it).  The classes nested in the class being instantiated are instantiated in place, yet
+    the same declared class is looked up again later -- by another local class that extends it, or by a component of its type.  So
+    (frame obligation at the call site) the loop over the nested classes must hand build_instance_tree a private copy, and leave the
+    declared class as it was: otherwise a modification written in a local base class is lost on the way to the classes extending it."""
+    A = setup(eng)
+    ext = A.new("InstanceClass", name="T", type="model")
+    ext.fields["modification_environment"] = A.new("ClassModification")
+    decl = {}
+    for n in ("A", "C"):
+        c = A.new("Class", name=n, type="model")
+        sub = A.new("Symbol", name="s", type=A.ref("Sub"))
+        sub.fields["class_modification"] = A.new("ClassModification", arguments=VList([elem_arg(A, "k", A.prim(3))]))
+        put(eng, c.fields["symbols"], "s", sub)
+        c.fields["parent"] = ext
+        put(eng, ext.fields["classes"], n, c)
+        decl[n] = (c, sub, sub.fields["class_modification"], sub.fields["type"])
+    handed = []
+
+    def bit(eng, args, kwargs):
+        cls_ = args[0]
+        handed.append(cls_)
+        # the callee's frame: it rewrites the symbols of the class it is given
+        for sy in cls_.fields["symbols"].vals:
+            sy.fields["type"] = A.new("InstanceClass", name="Sub", type="model")
+            sy.fields["class_modification"] = None
+        return A.new("InstanceClass", name=cls_.fields["name"], type="model")
+    eng.call_contracts["build_instance_tree"] = bit
+    eng.exec_fragment(TREE, "build_instance_tree", classes_loop_selector, {"extended_orig_class": ext, "orig_class": ext}, label="classes-loop")
+    eng.cover("local.classes_loop")
+    eng.prove("local.each_nested_class_instantiated_once", z3.BoolVal(sorted(h.fields["name"] for h in handed) == ["A", "C"] and
+                                                                      all(v.cls.name == "InstanceClass" for v in ext.fields["classes"].vals)))
+    untouched = all(sub.fields["class_modification"] is mod and sub.fields["type"] is typ and c.fields["symbols"].vals[0] is sub for c, sub, mod, typ in decl.values())
+    eng.prove("local.declared_local_classes_are_left_as_declared", z3.BoolVal(bool(untouched)))
+
+
 HARNESSES = [("modify_symbol: order and scope", h_modify_symbol),
              ("modify_symbol: unknown attribute", h_modify_symbol_rejects_unknown),
              ("flatten_extends: environment order", h_extends_environment_order),
              ("build_instance_tree: elementary variable, spellings", h_elementary_spellings),
              ("build_instance_tree: elementary variable, order", h_elementary_order),
              ("build_instance_tree: component, shift one level", h_component_shift),
-             ("flatten_symbols: apply before rename", h_apply_before_rename)]
-EXPECTED_COVER = {"modify.n1", "modify.n2", "modify.n3", "modify.other_scope_same_simple_name", "modify.unknown", "envorder.0_bases", "envorder.1_bases", "envorder.2_bases",
-                  "elem.nested", "elem.dotted", "elem.binding", "elem.order", "comp.dotted", "comp.dotted_attribute", "comp.nested", "order.apply_rename"}
+             ("flatten_symbols: apply before rename", h_apply_before_rename),
+             ("build_instance_tree: local classes instantiated from copies", h_local_classes_are_instantiated_from_copies)]
+EXPECTED_COVER = {"modify.n1", "modify.n2", "modify.n3", "modify.other_scope_same_simple_name", "modify.scope_is_a_copy_of_this_class", "modify.unknown", "envorder.0_bases", "envorder.1_bases", "envorder.2_bases",
+                  "elem.nested", "elem.dotted", "elem.binding", "elem.order", "comp.dotted", "comp.dotted_attribute", "comp.nested", "order.apply_rename", "local.classes_loop"}
 BOUNDED = True
 LEVEL = "proof"
 TRUSTED = ["the parser turns `T x(start = a) = b` into declaration modifications [start = a, value = b] with scope None and a.x.start = e into component a with children x, start (parser.py 703-723; not executable by the symbolic executor, sampled by the bounded replay)",
